@@ -217,7 +217,8 @@ def step (c : Cfg) (s : St) : Op → Option St
   | .attempt d t n =>
     if d < c.n && s.ph d == .waitTarget && s.cu d == some t && s.tries.getD d 0 == n then some s else none
   | .ejectStart d t =>
-    if d < c.n && t < c.n && c.edge d t && s.ph d == .waitTarget && s.cu d == some t && decide (s.b d > 0) && readyTo c s t then
+    if d < c.n && t < c.n && c.edge d t && s.ph d == .waitTarget && !(s.failed.getD d false) && s.cu d == some t
+        && decide (s.b d > 0) && readyTo c s t then
       some { s with phase := setAt s.phase d .ejecting, heading := bump s.heading t 1 }
     else none
   | .ballLeft d =>
